@@ -53,14 +53,29 @@ def main() -> int:
     # 0. constants regenerated from the working tree
     import gen_constants
     gen_constants.main()
+    #    … and the definitions translated from the Python source (py2lean), for the checks that use them
+    proof_problems: list[str] = []
+    tr_groups = getattr(mod, "TRANSLATED_GROUPS", ())
+    if tr_groups:
+        import py2lean
+        status = py2lean.main()
+        mine = {k: v for k, v in status.items()
+                if any(t["lean"] == k and t["group"] in tr_groups for t in py2lean.TARGETS)}
+        ctx.extra["translated_from_source"] = mine
+        for k, v in mine.items():
+            if not v["ok"]:
+                proof_problems.append(f"py2lean cannot translate {v['python']} as it is now ({v['why']}): the equivalence "
+                                      f"theorem between the source and the model no longer checks")
 
     # 1. proof obligations re-checked
-    proof_problems: list[str] = []
     rc, log = common.lake(mod.PROPS_MODULE, "nmdriver")
     if rc != 0:
         proof_problems += ["lake build failed: " + d for d in (common.broken_decls(log) or [log[-600:]])]
         rc2, _ = common.lake("nmdriver")
         ctx.model_available = rc2 == 0 and common.DRIVER.exists()
+    if tr_groups:
+        rc3, _ = common.lake("trdriver")
+        ctx.translated_available = rc3 == 0 and common.TRDRIVER.exists()
     # 2. audit
     obligations, forbidden = common.count_obligations(mod.PROPS_MODULE)
     proof_problems += ["forbidden construct: " + h for h in forbidden]
